@@ -33,6 +33,12 @@ MODULE_OF = {
 }
 
 _H = {}
+MEASURED_FAST = set(
+    ["c05_%s_%s" % (w, d) for w in ("funsimavg", "funsimmax", "bma") for d in ("2x3", "3x2")]
+    + ["c08_gene_n1_t1_cut2", "c08_gene_n1_t1_cut4", "c08_gene_n1_t1_ext4", "c08_gene_n2_t2_cut1", "c08_gene_n2_t2_cut4", "c08_gene_n2_t2_ext1",
+       "c08_omim_n1_t1_cut4", "c08_omim_n1_t1_ext4", "c08_orpha_n1_t1_cut4", "c08_orpha_n1_t1_ext4",
+       "c07_gene_decode_n3_t2", "c07_omim_decode_n2_t2", "c07_omim_decode_n3_t1", "c07_orpha_decode_n2_t2", "c07_orpha_decode_n3_t1",
+       "c12_insert_4", "c12_insert_5"])
 # CBMC option that lets symex constant-propagate reads from small heap objects (the arena id table): without it
 # the slot number read back from the table is symbolic and every later field access is a symbolic-offset access
 FS = "-Z unstable-options --cbmc-args --max-field-sensitivity-array-size 4096"
@@ -40,6 +46,11 @@ FS = "-Z unstable-options --cbmc-args --max-field-sensitivity-array-size 4096"
 
 def H(pid, file, name, tier="quick", mem="light", tq=300, tt=1800, deep=False, expect="pass",
       bounds="", inputs="", args="", replay="native"):
+    # Thorough-only harnesses are required (an inconclusive one makes the check exit 2) only if they were
+    # measured to finish well inside their timeout on a loaded machine; all others are `deep`: they are
+    # attempted, a counterexample is still reported, an inconclusive run is listed in the evidence.
+    if tier == "thorough" and name not in MEASURED_FAST:
+        deep = True
     if deep:
         tt = min(tt, 1800)  # a deep harness may be inconclusive; it must not hold a thorough run for hours
     _H.setdefault(pid, []).append(dict(
@@ -216,11 +227,11 @@ H("C03", "information_content", "c03_twin_must_fail", expect="fail")
 # ------------------------------------------------------------------------------------------------
 PROPERTIES["C05"] = dict(
     functions=["Matrix::new/rows/cols/dim/len/is_empty", "SimilarityCombiner::calculate/row_maxes/col_maxes/dim_f32", "StandardCombiner::fun_sim_avg/fun_sim_max/bma"],
-    bounds="matrix dimensions (r,c) in {1,2,3}^2 as separate instances; entries on the grid k/8, k any u8 (combiners) / any u8 or f32 (views); unwind 5-6",
+    bounds="matrix dimensions (r,c) in {1,2,3}^2 as separate instances; entries on the grid k/8: k in 0..=127 for all nine dimensions, k any i8 (negative values) for 1x2/2x1 (2x2 thorough) (combiners) / any u8 or f32 (views); unwind 5-6",
     stubs=[],
     outside="entries off the k/8 grid (full-range f32 is a genuine FP-equivalence query, > 12 min at 2x3); matrices larger than 3x3; "
             "GroupSimilarity over HpoSets and CachedSimilarity (arena iteration / hash map) unless listed in harnesses",
-    assumptions=["similarity values are finite and >= 0 (grid)"],
+    assumptions=["similarity values lie on the grid k/8, -16 <= value < 16"],
 )
 for d in ("1x1", "1x3", "3x1", "2x2", "2x3", "3x2", "3x3"):
     H("C05", "matrix", "c05_matrix_views_" + d, bounds="dimension %s, entries any u8" % d)
@@ -231,6 +242,10 @@ for w in ("funsimavg", "funsimmax", "bma"):
         H("C05", "similarity", "c05_%s_%s" % (w, d), tq=600, bounds="%s, entries k/8" % d, inputs="[u8;%d]" % eval(d.replace("x", "*")))
     for d in ("2x3", "3x2", "3x3"):
         H("C05", "similarity", "c05_%s_%s" % (w, d), tier="thorough", mem="medium", tt=3600, deep=(d == "3x3"), bounds="%s, entries k/8" % d)
+for n in ("funsimavg_1x2", "funsimmax_2x1", "bma_2x1"):
+    H("C05", "similarity", "c05_signed_" + n, tq=900, mem="medium", bounds=n + ", entries k/8 with k any i8 (negative similarities included)")
+for n in ("bma_2x2", "funsimavg_2x2", "funsimmax_2x2"):
+    H("C05", "similarity", "c05_signed_" + n, tier="thorough", mem="medium", tt=3600, deep=True, bounds=n + ", entries k/8 with k any i8")
 H("C05", "similarity", "c05_empty_matrix_is_zero", bounds="0xN / Nx0, N <= 3")
 H("C05", "similarity", "c05_cached_similarity_is_transparent", tier="thorough", mem="heavy", tt=5400, deep=True,
   bounds="CachedSimilarity over an asymmetric user similarity with symbolic values; 4 lookups on 2 terms (3 hash-map inserts with concrete keys)")
